@@ -208,6 +208,30 @@ PROPS["C13"] = {
     "extraction_drops": ["tokenize: the chumsky lexer construction/run (replace_range) and eprintln! diagnostics", "Display impls, get_* accessors of PreParsedTokens, #[cfg(test)]"],
 }
 
+PROPS["C17"] = {
+    "verus_units": ["resolve_names"],
+    "replay": "privacy",
+    "floor": {"obligations": 14},
+    "trusted_base": [
+        "mangling model: `mangle`/`unmangle` uninterpreted with unmangle(mangle(p)) == p and mangle([s]) == s ASSUMED (a `$` inside a user identifier would break it: that is property C16's concern); helpers vx_mangle / vx_mangle2 / extract_path_from_mangled / vx_split_mangled stand for the `as_str()/join(\"$\")/split('$')/format!/to_symbol` string code",
+        "ASSUMED contracts: is_locally_bound (iter().rev().any(..)), vx_find_relative (the (1..=n).rev().map(..).find(..) chain of convert_var), vx_is_op_intrinsic (slice pattern + string tests for the reserved operator namespace)",
+        "derived PartialEq/Eq/Hash on Symbol(usize): structural, lawful hash key; Location / ExprNodeId opaque; `Expr` modelled by its `Var` variant with `var_of(into_id(Var(s))) == s`",
+        "std specifications added: Option::<&T>::copied, <[T]>::to_vec (only used at the Copy type Symbol), vx_extend_copied; vstd specifications of HashMap/HashSet/Vec/slices (starts_with, last, range indexing)",
+    ],
+    "assumptions": ["the tables in ModuleInfo (visibility_map, use_alias_map, wildcard_imports, module_context_map) are those built by the parser lowering: how they are built is not covered"],
+    "not_covered": [
+        "how ModuleInfo is built (stmts_from_program_with_prefix, parser lowering, register_alias) and type-level privacy in typing.rs",
+        "convert_expr (the recursive AST walk that maintains current_module_context and the local scopes) and pass 1 (collect_defined_names)",
+        "'every accepted reference resolves to the unique definition its module path denotes': only the resolved-path/alias-target relation of convert_qualified_var and resolve_qualified_path is proved",
+    ],
+    "explanation": "C17 resolution pass: is_within_module_hierarchy is exactly path-prefix (segment by segment) of the owning module in the current module; resolve_alias_chain terminates and returns a member of the alias chain; resolve_through_wildcards never yields a member whose visibility entry says private; resolve_qualified_path returns the written or module-relative path whose mangled name it returns; convert_qualified_var and convert_var report PrivateMemberAccess for every private member reached from outside its module hierarchy through a qualified path, a use alias, a multi-import, a re-export chain, a wildcard or module-relative resolution, and local bindings shadow imports.",
+    "samples": [
+        {"obligation": "convert_qualified_var::ensures", "clause": "is_private(mangle(rp)) && !within_hierarchy(ctx, rp) ==> has_private_error(errors', rp); same for the alias-chain target (re-export route)"},
+        {"obligation": "resolve_alias_chain::ensures", "clause": "exists n: r == alias_iter(use_alias_map, symbol, n); decreases |keys \\ visited|"},
+    ],
+    "extraction_drops": ["ModuleInfo fields type_declarations / type_aliases (not used by the pass)", "string code replaced by the mangling model as listed", "Error: derive(Debug, Clone, Error), ReportableError impl"],
+}
+
 
 def is_trusted_cut(unit, cut):
     """cuts whose body is external_body (contract assumed) — no canary expected"""
